@@ -159,7 +159,7 @@ def scan_emit_operand_counts(core):
     src = open(path).read()
     src = src[:src.index("#[cfg(test)]")] if "#[cfg(test)]" in src else src
     calls = list(re.finditer(r"self\s*\.emit\(\s*Opcode::(\w+)\s*,\s*&\[((?:[^\[\]]|\[[^\]]*\])*)\]", src))
-    total = len(re.findall(r"\.emit\(", src)) - len(re.findall(r"fn emit\(", src))
+    total = len(re.findall(r"\.emit\(", src))
     out = []
     if len(calls) != total:
         raise core.Undecided("%d of %d emit call sites have an opcode / operand list that is not a literal (scan cannot judge them)" % (total - len(calls), total))
